@@ -8,7 +8,7 @@
     every invariant evaluated in every state of the accepted behaviour.
 (V1) API oracles in the driver (initialiser count, return only after its end, payload
     intact); a hang (a waiter never released) or a crash inside the library is a violation."""
-import os, json, re
+import os, json, re, threading
 from concurrent.futures import ThreadPoolExecutor
 from vlib import *
 
@@ -18,15 +18,38 @@ MUTANTS = ("bcast_nowake", "sleep_uncond", "tryenter_nonzero", "no_waiters_bit",
            "wait_noloop")
 
 
-def _mutant(mut):
+def _checked(name, *a, **kw):
+    """tlc_must_pass + recognise this TLC's wording of a liveness counterexample
+    ('Temporal properties A and B were violated', exit code 13)."""
+    r = tlc_must_pass(name, *a, **kw)
+    if r.violated is None:
+        m = re.search(r"Error: Temporal propert(?:y|ies) (.*?) (?:was|were) violated", r.out)
+        if m or r.rc == 13:
+            r.violated = "temporal:" + (m.group(1).replace(" ", "") if m else "?")
+        elif r.rc != 0:
+            raise Broken("TLC failed on %s (rc=%s):\n%s" % (name, r.rc, r.out[-3000:]))
+    return r
+
+
+PROPERTY_INVARIANTS = "INVARIANTS TypeOK InitAtMostOnce NoReturnBeforeInitDone LateCallsImmediate NoCrash NoLostSleeper"
+
+
+def _mutant(job):
+    """Spec mutants are judged by the property-level invariants only (not by the auxiliary structural ones);
+    mode 'live' drops the invariants too, so the lost wakeup must be found by the temporal properties alone."""
+    mut, mode = job
     src = open(os.path.join(SPEC, "cfg", "Once_q.cfg")).read()
-    if 'Mut = "none"' not in src:
-        raise Broken("Once_q.cfg has no Mut constant")
+    if 'Mut = "none"' not in src or not re.search(r"^INVARIANTS .*$", src, flags=re.M):
+        raise Broken("Once_q.cfg: unexpected shape")
     src = src.replace('Mut = "none"', 'Mut = "%s"' % mut)
-    p = os.path.join(rundir(PROP), "mut_%s.cfg" % mut)
+    if mode == "live":
+        src = re.sub(r"^INVARIANTS .*$", "INVARIANTS TypeOK", src, flags=re.M).replace("MaxCalls = 2", "MaxCalls = 1")
+    else:
+        src = re.sub(r"^INVARIANTS .*$", PROPERTY_INVARIANTS, src, flags=re.M)
+    p = os.path.join(rundir(PROP), "mut_%s_%s.cfg" % (mut, mode))
     open(p, "w").write(src)
-    return mut, tlc_must_pass("mutant " + mut, "Once.tla", p, timeout=600, workers=2,
-                              metaname="once_mut_%s.%d" % (mut, os.getpid()))
+    return mut, mode, _checked("mutant " + mut, "Once.tla", p, timeout=600, workers=2,
+                                    metaname="once_mut_%s_%s.%d" % (mut, mode, os.getpid()))
 
 
 def model(v, tier):
@@ -34,17 +57,22 @@ def model(v, tier):
     if tier != "quick":
         cfgs += [("Once_t.cfg", 1500), ("Once_ts.cfg", 1500), ("Once_t5.cfg", 1500)]
     for cfg, to in cfgs:
-        r = tlc_must_pass(cfg, "Once.tla", cfg, timeout=to)
+        r = _checked(cfg, "Once.tla", cfg, timeout=to)
         v.add_model(cfg, r)
         if r.violated:
             p = save_replay(PROP, cfg + ".tlc.out", r.out)
             v.violation("spec %s violates %s" % (cfg, r.violated), p)
     # non-vacuity: every spec mutant must be refuted inside the quick bounds
     with ThreadPoolExecutor(max_workers=3) as ex:
-        for mut, r in ex.map(_mutant, MUTANTS):
-            if not r.violated:
-                raise Broken("spec mutant %s not refuted: the properties are vacuous in these bounds" % mut)
-            v.notes.setdefault("spec_mutants_refuted", []).append({"mutant": mut, "by": r.violated})
+        jobs = [(m, "safety") for m in MUTANTS] + [("bcast_nowake", "live"), ("sleep_uncond", "live")]
+        for mut, mode, r in ex.map(_mutant, jobs):
+            if not r.violated or r.violated == "TypeOK":
+                raise Broken("spec mutant %s (%s) not refuted: the properties are vacuous in these bounds" % (mut, mode))
+            v.notes.setdefault("spec_mutants_refuted", []).append(
+                {"mutant": mut, "judged_by": "temporal properties only" if mode == "live" else
+                 "property-level invariants", "by": r.violated})
+            if mode == "live" and not r.violated.startswith("temporal"):
+                raise Broken("liveness mutant %s refuted by %s, not by the temporal properties" % (mut, r.violated))
 
 
 def coverage_of(path, cov):
@@ -89,14 +117,20 @@ def coverage_of(path, cov):
             pending.pop(t, None)
 
 
+_stop = threading.Event()    # once a run has shown a violation the queued ones are skipped
+
+
 def _run_one(args):
     drv, d, i, s, perturb, execs = args
+    if _stop.is_set():
+        return None
     tr = os.path.join(d, "once_%d.ndjson" % i)
     if os.path.exists(tr):
         os.unlink(tr)
     rc, out, err = sh([drv, tr, str(s), str(perturb), str(execs)], timeout=300)
     res = {"i": i, "seed": s, "rc": rc, "err": err, "trace": tr, "perturb": perturb}
     if not os.path.exists(tr):
+        _stop.set()
         return res
     nt = count_threads(tr)
     r = validate_trace(TSPEC, TCFG, tr, nthreads=nt, metaname="once_tr%d.%d" % (i, os.getpid()))
@@ -104,6 +138,8 @@ def _run_one(args):
         # a rejection is reported only if one automatic re-validation reproduces it
         r = validate_trace(TSPEC, TCFG, tr, nthreads=nt, metaname="once_tr%db.%d" % (i, os.getpid()))
     res["r"] = r
+    if rc != 0 or not r.accepted:
+        _stop.set()
     return res
 
 
@@ -115,12 +151,14 @@ def _context(r, before=4):
 
 def traces(v, tier, seed):
     drv = build_driver("drv_once")
-    runs, execs = (9, 40) if tier == "quick" else (60, 80)
+    runs, execs = (12, 50) if tier == "quick" else (60, 80)
     d = rundir(PROP)
     jobs = [(drv, d, i, seed * 1000 + i, [2, 3, 1][i % 3], execs) for i in range(runs)]
     cov, drift = {}, set()
+    _stop.clear()
     with ThreadPoolExecutor(max_workers=4) as ex:
-        results = list(ex.map(_run_one, jobs))
+        results = [x for x in ex.map(_run_one, jobs) if x is not None]
+    v.notes["driver_runs_done"] = len(results)
     for res in results:
         rc, s, tr, err = res["rc"], res["seed"], res["trace"], res["err"]
         r = res.get("r")
@@ -176,6 +214,9 @@ def run(tier, seed):
                      "record by record but a mismatch in the order alone is reported as DRIFT",
                      "TLC bounds: see models",
                      "hooked build serialises traced atomics with their log record (global lock)"]
+    v.notes["c11_informational"] = ("the give-up that leaves _dispatch_once_wait when it observes DONE is a relaxed fence "
+                                    "(transcribed as MO.giveup = relaxed): no C11 happens-before edge on that path; "
+                                    "harmless on TSO (DESIGN 5.6), not judged here")
     model(v, tier)
     traces(v, tier, seed)
     return v.finish()
